@@ -400,7 +400,8 @@ def align_comments(tlist):
     tidx, token = tlist.token_next_by(i=sql.Comment)
     while token:
         pidx, prev_ = tlist.token_prev(tidx)
-        if isinstance(prev_, sql.TokenList):
+        if isinstance(prev_, sql.TokenList) \
+                and not isinstance(prev_, sql.Comment):
             tlist.group_tokens(sql.TokenList, pidx, tidx, extend=True)
             tidx = pidx
         tidx, token = tlist.token_next_by(i=sql.Comment, idx=tidx)
